@@ -11,7 +11,7 @@ oracle:          the property itself on every run of every tool on every input (
                  pathological shapes, shipped schemas in thorough tier): exit 0, or small positive status with a diagnostic;
                  a sanitizer report, a fatal signal, a timeout or an odd status IS the failing input.           [testing]
 """
-import glob, json, os, re, subprocess, sys, time
+import glob, json, os, re, shutil, subprocess, sys, time
 
 HERE = os.path.dirname(os.path.abspath(__file__))
 VERIF = os.path.dirname(HERE)
@@ -302,7 +302,7 @@ def make_key(tool, r, fam):
     return re.sub(r"\s+", "_", key)
 
 
-EXTRA_MARKS = [("exit_discipline", ("exit-discipline",)), ("lattice", ("ladder_", "MultList::copyList", "ENTITYhas_ancestor", "non_unique_types_vector", "ENTITY_get_all_attributes", "LISTadd_attributes_once")), ("scan_buffers", ("SCANpush_buffer", "SCAN_buffers")), ("open_comment", ("open_comment",)), ("schema_file", ("EXPRESSfind_schema",)),
+EXTRA_MARKS = [("exit_discipline", ("exit-discipline", "could not be created", "in the way")), ("lattice", ("ladder_", "MultList::copyList", "ENTITYhas_ancestor", "non_unique_types_vector", "ENTITY_get_all_attributes", "LISTadd_attributes_once")), ("scan_buffers", ("SCANpush_buffer", "SCAN_buffers")), ("open_comment", ("open_comment",)), ("schema_file", ("EXPRESSfind_schema",)),
                ("schema_path", ("EXPRESS_PATHinit", "exppath")), ("escape_buffer", ("format_for_stringout",)), ("exprto_python", ("EXPRto_python",)),
                ("quoted", ("EXPRstring", "EXPRlength", "boundary:quoted", "boundary:repeat")), ("use_cycle", ("SCOPEfind_for_rename", "SCOPE_find_for_rename", "RENAMEresolve", "use_cycle", "imports:", "SCHEMA_get_entities_use", "SCOPE_find", "SCOPE_dfs", "TYPE_resolve")), ("errbuf", ("ERROR_nexterror", "ERROR_vprintf", "ERRORvreport_with_symbol", "errbuf")), ("longexpr", ("exp_output", "format_for_std_stringout")), ("selectsearch", ("EXP_resolve_op_dot_fuzzy", "EXP_resolve_op_group_fuzzy", "EXPresolve_op_dot", "EXPresolve_op_group")),
                ("subtype_cycle", ("ENTITYcalculate_inheritance", "ENTITYget_named_attribute", "subtype_cycle")),
@@ -397,6 +397,43 @@ def exit_discipline_stream(ctx, b, model, tmo, disagreements):
     return n
 
 
+UNWRITABLE_INPUT = (b"SCHEMA s;\nTYPE t = SELECT (a);\nEND_TYPE;\nTYPE en = ENUMERATION OF (p, q);\nEND_TYPE;\nENTITY a;\n  x : INTEGER;\nEND_ENTITY;\n"
+                    b"ENTITY b SUBTYPE OF (a);\n  y : en;\nEND_ENTITY;\nEND_SCHEMA;\n")
+
+
+def unwritable_stream(ctx, b, run_, tmo, quick):
+    n = 0
+    for tool in ("exp2cxx", "exp2python", "exppp"):
+        ref = R.run_tool(b, tool, UNWRITABLE_INPUT, ctx.work, timeout=tmo, keep=True)
+        ctx.count(1, key=("unwritable", tool, "reference"))
+        outs = []
+        if ref.get("dir"):
+            od = os.path.join(ref["dir"], "out")
+            for root, ds, fs in os.walk(od):
+                for d_ in ds:
+                    outs.append(("file", os.path.relpath(os.path.join(root, d_), od)))
+                for f_ in fs:
+                    outs.append(("dir", os.path.relpath(os.path.join(root, f_), od)))
+            shutil.rmtree(ref["dir"], ignore_errors=True)
+        if ref["cls"] != "accept" or not outs:
+            ctx.broken.append((f"unwritable-output stream: {tool}", f"reference run {ref['cls']} rc={ref['rc']}, {len(outs)} outputs"))
+            continue
+        outs.sort()
+        if quick and len(outs) > 8:
+            outs = outs[::max(1, len(outs) // 8)]
+        for kind, name in outs:
+            r = R.run_tool(b, tool, UNWRITABLE_INPUT, ctx.work, timeout=tmo, obstacles=((kind, name),))
+            ctx.count(1, key=("unwritable", tool, name))
+            n += 1
+            if r["cls"] in R.BAD:
+                run_.bad.append((f"unwritable:{kind}:{name}", UNWRITABLE_INPUT, None, None, dict(r, obstacles=[[kind, name]], sig=r["sig"] + f" (a {kind} named {name} in the way)")))
+            elif r["cls"] == "accept" and tool != "exppp":
+                # the file could not be written and nobody noticed
+                run_.bad.append((f"unwritable:{kind}:{name}", UNWRITABLE_INPUT, None, None,
+                                 dict(r, cls="badexit", sig=f"status 0 although {name} could not be created", obstacles=[[kind, name]])))
+    return n
+
+
 def report_bad(ctx, run, timeout):
     """shrink and report every distinct misbehaviour (distinct by signature), at most MAX_REPORTED"""
     seen = {}
@@ -420,7 +457,7 @@ def report_bad(ctx, run, timeout):
                 data, r = G.shape(fam, mn), mr
             else:
                 mn = n
-        elif isinstance(data, dict) or e["r"].get("env"):
+        elif isinstance(data, dict) or e["r"].get("env") or e["r"].get("obstacles"):
             pass            # several files (INCLUDE chains) / environment-dependent: reported as generated
         elif r["cls"] != "timeout" and 256 <= len(data) < 400000:
             d2, r2 = minimise_lines(run, data, tool, args, tmo, sig=r["sig"])
@@ -431,7 +468,7 @@ def report_bad(ctx, run, timeout):
                 f": {r['cls']} [{r['sig']}] rc={r['rc']}" + (f"; also {', '.join(e['also'][:6])}" if e["also"] else ""))
         if e["r"].get("env"):
             what += " with " + ", ".join(f"{k}=<{len(v)} characters>" for k, v in e["r"]["env"].items())
-        rep = {"tool": tool, "args": list(args), "env": e["r"].get("env"), "class": r["cls"], "signature": r["sig"], "exit": r["rc"],
+        rep = {"tool": tool, "args": list(args), "env": e["r"].get("env"), "obstacles": e["r"].get("obstacles"), "class": r["cls"], "signature": r["sig"], "exit": r["rc"],
                "family": fam, "n": mn,
                "input_latin1": None if isinstance(data, dict) else (data.decode("latin-1") if len(data) <= 300000 else None),
                "files_latin1": {k: v.decode("latin-1") for k, v in data.items()} if isinstance(data, dict) else None,
@@ -799,6 +836,9 @@ def run(ctx):
                         disagreements.append((fam, n, t, budget, f"refused: {r['diag'][:80]}"))
                 elif r["cls"] != "accept" and r["cls"] not in R.BAD:
                     disagreements.append((fam, n, t, f"{preds}", f"{r['cls']} rc={r['rc']}: {r['diag'][:100]}"))
+    # outputs that cannot be created: every file or directory a generator writes, with a directory (a file) of that name in the
+    # way.  Oracle as everywhere: no crash, a line saying "error" => non-zero status, non-zero status => a diagnostic.
+    ncomp += unwritable_stream(ctx, b, run_, tmo, quick)
     # exit-status discipline: inputs with a known sequence of reports, with and without -B; invocations without an input file
     ncomp += exit_discipline_stream(ctx, b, model, tmo, disagreements)
     ctx.cov["correspondence"]["boundary"] = {"comparisons": ncomp, "disagreements": len(disagreements),
@@ -963,8 +1003,11 @@ def replay(ctx, path):
         data = r["input_latin1"].encode("latin-1")
     else:
         data = G.shape(r["family"], r["n"])
-    res = R.run_tool(b, r["tool"], data, ctx.work, timeout=120, args=tuple(r.get("args", ())), env_extra=r.get("env"), no_input=bool(r.get("no_input")))
+    res = R.run_tool(b, r["tool"], data, ctx.work, timeout=120, args=tuple(r.get("args", ())), env_extra=r.get("env"), no_input=bool(r.get("no_input")),
+                     obstacles=tuple(tuple(x) for x in (r.get("obstacles") or ())))
     ctx.count(1, key=("replay", r["tool"]))
+    if r.get("obstacles") and res["cls"] == "accept" and r.get("class") == "badexit":
+        res.update(cls="badexit", sig=r.get("signature", "status 0 although an output could not be created"))
     if r.get("expect"):
         probs = judge_exit(res, r["expect"])
         print(f"[C06] replay: {r['tool']} {' '.join(r.get('args', []))} -> rc={res['rc']} {probs}", flush=True)
